@@ -218,7 +218,8 @@ def check_case(case):
         return set(range(min(c_lo, c_hi), min(max(c_lo, c_hi), len(vals)) + 1))
 
     res = {}
-    for p in (case["p"], case["p2"]):
+    # (p = 1 on arbitrary values: the whole field is needed, however the total happens to have been summed)
+    for p in (case["p"], case["p2"]) + ((1.0,) if case.get("floats") else ()):
         if nx < 2 or (ny < 2):
             continue
         try:
